@@ -418,6 +418,15 @@ func buildC18(cfg *mon.Config) []*mon.Sub {
 			for i := 0; i < cfg.N(4000, 150000); i++ {
 				emit(strconv.FormatUint(r.Next()%1000000, 10) + "\x00" + encNode(identTree(g, 1+r.Intn(4))))
 			}
+			// many distinct names in one expression, with twins that differ only in letter case, all new
+			for n := 2; n <= 45; n++ {
+				t := leafVar("total")
+				for k := 1; k <= n; k++ {
+					t = binNode("+", t, leafVar(fmt.Sprintf("v%d", k)))
+				}
+				t = binNode("-", binNode("*", t, leafVar("TOTAL")), leafVar(fmt.Sprintf("V%d", n)))
+				emit(strconv.Itoa(n) + "\x00" + encNode(t))
+			}
 		},
 		Exec: c18ExprExec,
 		Sample: func(p string) any {
@@ -472,6 +481,16 @@ func buildC18(cfg *mon.Config) []*mon.Sub {
 				}
 			} else if err != nil || snap(res).String() != fmt.Sprintf("int(%d)", want) {
 				c.Failf("a variable does not resolve case-insensitively to the first one added", "variables [%s=1 %s=2], expression %q -> %v, %v; want %d", n1, n2, use, snap(res), err, want)
+			}
+			// an explicitly passed empty function collection is an empty collection
+			calc3 := calculator.NewExpressionCalculator()
+			if pn := mon.Try(func() {
+				if err = calc3.SetExpression("Max(1, 2) + Sum(1, 2)"); err == nil {
+					res, err = calc3.EvaluateUsingVariablesAndFunctions(nil, functions.NewFunctionCollection())
+				}
+			}); pn != nil || err == nil || !strings.Contains(err.Error(), "Max") {
+				c.Failf("a missing function is not reported as an error naming it", "Max(1, 2) + Sum(1, 2) evaluated with an explicitly passed empty function collection -> %v, %v", snap(res), err)
+				return
 			}
 			// functions
 			fc := functions.NewFunctionCollection()
@@ -545,7 +564,11 @@ func buildC18(cfg *mon.Config) []*mon.Sub {
 				return
 			}
 			t := mustache.NewMustacheTemplate()
-			t.SetDefaultVariables(map[string]string{"KEEP": "1", "ITEM": "2"})
+			pre := map[string]string{"KEEP": "1", "ITEM": "2"}
+			if len(want) > 0 && want[0] != "keep" && want[0] != "item" {
+				pre[strings.ToUpper(want[0])] = "" // an entry that is already there, empty, in another letter case
+			}
+			t.SetDefaultVariables(pre)
 			if pn := mon.Try(func() { err = t.SetTemplate(src) }); pn != nil || err != nil {
 				c.Failf("template rejects what its parser accepts", "template=%q: %v %v", src, pn, err)
 				return
